@@ -37,7 +37,7 @@ theorem wf_of_inv {s : St α} {L : List (α × α)} (h : Inv s L) (hb : s.backlo
 
 theorem interpolate_of_mem {a b t : α} (h0 : 0 ≤ t) (h1 : t ≤ 1) : interpolate a b t = t * b + (1 - t) * a := by
   unfold interpolate
-  simp [not_lt.2 h0, not_lt.2 h1]
+  simp [h0, not_lt.2 h1]
 
 theorem seg_t_mem {p k : α × α} {x : α} (h0 : p.1 ≤ x) (h1 : x ≤ k.1) :
     0 ≤ (x - p.1) / (k.1 - p.1) ∧ (x - p.1) / (k.1 - p.1) ≤ 1 := by
@@ -56,7 +56,7 @@ theorem interpolate_seg (p k : α × α) {x : α} (h0 : p.1 ≤ x) (h1 : x ≤ k
 theorem clampedMean_eq {mn mx : α} {c : Centroid α} (h1 : mn ≤ c.mean) (h2 : c.mean ≤ mx) :
     clampedMean mn mx c = c.mean := by
   unfold clampedMean
-  simp [not_lt.2 h1, not_lt.2 h2]
+  simp [h1, not_lt.2 h2]
 
 /-- on a well-formed state every centroid mean lies in `[min, max]`, so `clampedMean` is `mean` -/
 theorem clampedMean_eq_of_wf {s : St α} (h : WF s) {mn mx : α} (hmin : s.min = some mn)
